@@ -39,6 +39,9 @@ def declare(P, variant):
     if variant in ("many", "all"):
         # one constraint owning 12 assertions (4 intervals x 3 tasks)
         user["c_unav"] = ps.ResourceUnavailable(name="c_unav", resource=w, list_of_time_intervals=[(1, 2), (4, 5), (7, 8), (10, 11)])
+    if variant == "medium":
+        # 2 intervals x 3 tasks + 2: eight owned literals, every subset explored in the thorough tier
+        user["c_unav"] = ps.ResourceUnavailable(name="c_unav", resource=w, list_of_time_intervals=[(1, 2), (7, 8)])
     if variant in ("optional", "all"):
         o1 = ps.TaskStartAt(name="o1", task=b.obj, value=3, optional=True)
         o2 = ps.TaskStartAt(name="o2", task=b.obj, value=5, optional=True)
@@ -59,6 +62,9 @@ def _owner_in(problem, assertion):
     return None
 
 
+CORE_BOUND = [6]  # every subset of the owned literals up to this many (thorough: 9)
+
+
 def core_chooser(holder):
     """cores: subsets of the literals whose assertion is owned by a user constraint (ownership decided
     by the harness from the constraints' own assertion lists, not from the solver's internal map)"""
@@ -67,7 +73,7 @@ def core_chooser(holder):
         owned = sorted(n for n, a in stub.tracked.items() if _owner_in(pb, a) is not None)
         basic = sorted(n for n in stub.tracked if n not in owned)
         cands = []
-        if len(owned) <= 6:
+        if len(owned) <= CORE_BOUND[0]:
             for r in range(len(owned) + 1):
                 cands += [list(c) for c in itertools.combinations(owned, r)]
         else:
@@ -293,7 +299,8 @@ def replay_diag(desc):
 
 
 def shapes(tier):
-    out = [diag_shape(v) for v in ("plain", "fol", "many", "optional", "indicator", "all")]
+    CORE_BOUND[0] = 9 if tier == "thorough" else 6
+    out = [diag_shape(v) for v in ("plain", "fol", "many", "optional", "indicator", "all") + (("medium",) if tier == "thorough" else ())]
     out += [verdict_shape(v) for v in ("plain", "fol", "many", "optional", "indicator")]
     return out
 
@@ -302,7 +309,7 @@ def main(tier):
     return run_property(
         PROP, "checks.c19", tier, "model_checking",
         assumptions=[
-            "solver stub contract: the unsat core is a subset of the tracked literals whose assertions are jointly unsat; cores explored: all subsets of the constraint-owned literals when <= 6, otherwise empty/singletons/full/halves, always with every basic-rule literal",
+            "solver stub contract: the unsat core is a subset of the tracked literals whose assertions are jointly unsat; cores explored: all subsets of the constraint-owned literals when <= 6 (thorough: 9), otherwise empty/singletons/full/halves, always with every basic-rule literal",
             "'basic rules' = every assertion not owned by a user constraint (task, resource, buffer, horizon, indicator definitions)",
             "monotonicity argument: if every core literal is a basic rule or owned by a listed constraint, basic rules + listed constraints contain the (unsat) core",
             "z3's own unsat-core extraction is trusted; the replay re-solves the listed subset with the real z3",
